@@ -2,15 +2,17 @@
 VERUS_UNITS = {
     "V-frame": "v_frame",
     "V-vmproto": "v_vmproto",
+    "V-range": "v_range",
 }
 
 PROPERTIES = {
-    "C01": {"verus": ["V-frame"], "kani": ["K-number"]},
+    "C01": {"verus": ["V-frame", "V-range"], "kani": ["K-number"]},
     "C05": {"verus": ["V-frame"], "kani": ["K-emit"]},
-    "C06": {"verus": ["V-frame", "V-vmproto"], "kani": ["K-number", "K-emit"]},
+    "C06": {"verus": ["V-frame", "V-vmproto", "V-range"], "kani": ["K-number", "K-emit"]},
     "C04": {"verus": ["V-vmproto"], "kani": []},
     "C07": {"verus": ["V-vmproto"], "kani": []},
     "C08": {"verus": ["V-vmproto"], "kani": []},
     "C12": {"verus": ["V-vmproto"], "kani": []},
+    "C13": {"verus": ["V-range"], "kani": []},
     "C14": {"verus": [], "kani": ["K-number"]},
 }
